@@ -129,6 +129,11 @@ def stub_spa(hdr, block):
     return spa
 
 
+def exc_name(exc):
+    t = type(exc)
+    return t.__name__ if t.__module__ == "builtins" else f"{t.__module__}.{t.__name__}"
+
+
 def failing_handler(exc):
     names = [f.name for f in traceback.extract_tb(exc.__traceback__) if f.filename.endswith("snapshot.py")]
     for n in reversed(names):
@@ -423,7 +428,7 @@ def run(ctx):
             inp = {"kind": "snapshot", "name": name, "hdr": hdr, "block": block.hex()}
             bad = None
             if exc is not None:
-                bad = (f"{type(exc).__name__}:{failing_handler(exc)}", f"{type(exc).__name__}: {exc}")
+                bad = (f"{exc_name(exc)}:{failing_handler(exc)}", f"{exc_name(exc)}: {exc}")
             else:
                 d = check_roundtrip(snaps, name, hdr, block)
                 if d is not None:
@@ -460,6 +465,7 @@ def run(ctx):
         ctx.cov["shipped_files"] = len(files)
         shipped_blocks = []
         served = 0
+        shipped_records = 0
         for f in files:
             base = os.path.basename(f)
             inp = {"kind": "shipped", "file": base}
@@ -472,34 +478,40 @@ def run(ctx):
                     op("parse " + hxs(text), ans, ("parse-shipped", base))
             except Exception:  # noqa
                 pass
-            if exc is not None or not snaps or len(snaps) != 1:
-                ctx.violation(f"shipped:{base}:parse", inp, "parses to exactly one snapshot",
-                              repr(exc) if exc else f"{len(snaps or [])} snapshots")
+            if exc is not None or not snaps:
+                ctx.violation(f"shipped:{base}:parse", inp, "parses to a snapshot", repr(exc) if exc else "0 snapshots")
                 continue
-            sn = snaps[0]
-            shipped_blocks.append((base, sn.bytes))
-            if sim is None:
-                continue
-            try:
-                errs = sim.load(sn)
-                if errs or not sim.sim.structure.accessors:
-                    ctx.violation(f"shipped:{base}:load", inp, "set_snapshot finds pack, config and log modules", errs[:2] or "no accessors")
+            if len(snaps) != 1:
+                # GeckoSimulator.do_load refuses such a file; every record in it is still checked below
+                ctx.violation(f"shipped:{base}:count", inp, "the file holds exactly one snapshot (what `load` accepts)",
+                              f"{len(snaps)} snapshots: {[sn.name for sn in snaps]}")
+            for si, sn in enumerate(snaps):
+                tag = base if len(snaps) == 1 else f"{base}#{si}"
+                shipped_blocks.append((tag, sn.bytes))
+                shipped_records += 1
+                if sim is None:
                     continue
-                if sim.sim.structure.status_block[:len(sn.bytes)] != sn.bytes:
-                    ctx.violation(f"shipped:{base}:load-bytes", inp, "simulator structure holds the parsed bytes", "differs")
-                    continue
-                ok, got = serve_async(sim)
-                if not ok or got[:len(sn.bytes)] != sn.bytes or got != sim.sim.structure.status_block:
-                    ctx.violation(f"shipped:{base}:serve-async", inp, "async client block == parsed bytes", {"ok": ok, "len": len(got)})
-                    continue
-                ok2, got2 = serve_sync(sim)
-                if not ok2 or got2[:len(sn.bytes)] != sn.bytes or got2 != sim.sim.structure.status_block:
-                    ctx.violation(f"shipped:{base}:serve-sync", inp, "threaded-class client block == parsed bytes", {"ok": ok2, "len": len(got2)})
-                    continue
-                served += 1
-                nontrivial.add(("shipped", base))
-            except Exception as e:  # noqa
-                ctx.violation(f"shipped:{base}:{type(e).__name__}", inp, "load and serve without exception", repr(e))
+                try:
+                    errs = sim.load(sn)
+                    if errs or not sim.sim.structure.accessors:
+                        ctx.violation(f"shipped:{tag}:load", inp, "set_snapshot finds pack, config and log modules", errs[:2] or "no accessors")
+                        continue
+                    if sim.sim.structure.status_block[:len(sn.bytes)] != sn.bytes or len(sn.bytes) != 1024:
+                        ctx.violation(f"shipped:{tag}:load-bytes", inp, "simulator structure holds the 1024 parsed bytes", len(sn.bytes))
+                        continue
+                    ok, got = serve_async(sim)
+                    if not ok or got != sn.bytes:
+                        ctx.violation(f"shipped:{tag}:serve-async", inp, "async client block == parsed bytes", {"ok": ok, "len": len(got)})
+                        continue
+                    ok2, got2 = serve_sync(sim)
+                    if not ok2 or got2 != sn.bytes:
+                        ctx.violation(f"shipped:{tag}:serve-sync", inp, "threaded-class client block == parsed bytes", {"ok": ok2, "len": len(got2)})
+                        continue
+                    served += 1
+                    nontrivial.add(("shipped", tag))
+                except Exception as e:  # noqa
+                    ctx.violation(f"shipped:{tag}:{type(e).__name__}", inp, "load and serve without exception", repr(e))
+        ctx.cov["shipped_snapshot_records"] = shipped_records
         ctx.cov["shipped_loaded_and_served_to_both_clients"] = served
 
         # ---------- traffic logs produced by a real transfer (real socket DEBUG records through the real file handler) ----------
@@ -524,7 +536,7 @@ def run(ctx):
                 ans, snaps, exc = real_parse_file(cap.path)
                 ctx.count("evaluations")
                 if exc is not None:
-                    ctx.violation(f"traffic:{type(exc).__name__}:{failing_handler(exc)}", inp,
+                    ctx.violation(f"traffic:{exc_name(exc)}:{failing_handler(exc)}", inp,
                                   "the connection record reassembles to the transferred block", f"{type(exc).__name__}: {exc}")
                 elif not snaps or snaps[-1].bytes != blk:
                     b = snaps[-1].bytes if snaps else b""
@@ -648,7 +660,8 @@ def run(ctx):
         if i < len(ops):
             ctx.sample({"op": ops[i][:120], "impl": impl[i][:120]})
     ctx.cov["distinct_nontrivial"] = len(nontrivial)
-    ctx.cov["exhaustive"] = {"byte_pairs_repr_literal_eval": True, "shipped_snapshot_files": True, "writer_inputs": False}
+    ctx.cov["exhaustive"] = False
+    ctx.cov["exhaustive_parts"] = {"byte_pairs_repr_literal_eval": True, "shipped_snapshot_files": True, "writer_inputs": False}
     ctx.cov["rule"] = ("writer cases = %d catalogue names (brackets, parentheses, digits, header-like text, STATV text, the handshake "
                        "text, quotes, backslash) + seeded random names over a hostile alphabet + 4 non-ASCII names (search only), each with a "
                        "seeded header (boundary numbers every 5th; all shipped pack labels) and a block from {zeros, ones, 0..255 cycle, "
@@ -696,18 +709,24 @@ def replay(inp):
     if kind == "shipped":
         f = str(REPO / "tests" / "snapshots" / inp["file"])
         ans, snaps, exc = real_parse_file(f)
-        if exc is not None or not snaps or len(snaps) != 1:
-            return True, repr(exc) if exc else f"{len(snaps or [])} snapshots"
+        if exc is not None or not snaps:
+            return True, repr(exc) if exc else "0 snapshots"
+        obs = {"snapshots": len(snaps)}
+        bad = len(snaps) != 1
         sim = Sim()
         try:
-            errs = sim.load(snaps[0])
-            if errs or not sim.sim.structure.accessors:
-                return True, errs
-            ok, got = serve_async(sim)
-            ok2, got2 = serve_sync(sim)
+            for i, sn in enumerate(snaps):
+                errs = sim.load(sn)
+                if errs or not sim.sim.structure.accessors:
+                    obs[f"load#{i}"] = errs
+                    bad = True
+                    continue
+                ok, got = serve_async(sim)
+                ok2, got2 = serve_sync(sim)
+                if not ok or not ok2 or got != sn.bytes or got2 != sn.bytes:
+                    obs[f"serve#{i}"] = {"async_ok": ok, "sync_ok": ok2}
+                    bad = True
         finally:
             sim.close()
-        n = len(snaps[0].bytes)
-        bad = not ok or not ok2 or got[:n] != snaps[0].bytes or got2[:n] != snaps[0].bytes
-        return bad, {"async_ok": ok, "sync_ok": ok2}
+        return bad, obs
     return False, "unknown replay kind"
